@@ -76,6 +76,7 @@ def run(ctx):
             except Exception as e: viol(f'C05:full:raises{suffix}', f'classical_qsvd_full raised {e!r}', inp); continue
             finally: np.linalg.svd = orig_svd
             Ur, sr, Vtr = rec['last']; r = min(m, n); sc = max(1.0, float(max(sv)))
+            if not cm.all_finite(U, s, V): viol(f'C05:full:nonfinite{suffix}', 'classical_qsvd_full returned NaN / inf', inp); continue
             if len(s) != r or np.any(np.diff(s) > 1e-12 * sc) or np.any(s < 0): viol(f'C05:full:order{suffix}', 'singular values not non-negative non-increasing', inp, s.tolist())
             elif max(abs(float(a) - float(b)) for a, b in zip(s, sv)) > 1e-9 * sc: viol(f'C05:full:values{suffix}', 'singular values differ from the true quaternion singular values', inp, s.tolist(), [float(x) for x in sv])
             eu = fro(utils.quat_matmat(utils.quat_hermitian(U), U) - utils.quat_eye(m)); ev = fro(utils.quat_matmat(utils.quat_hermitian(V), V) - utils.quat_eye(n))
@@ -117,6 +118,21 @@ def run(ctx):
                 Ur2, sr2, Vtr2 = rec['last']
                 terms.append(f'({m}%nat, {n}%nat, {R}%nat, {tmat(Ur2)}, [' + '; '.join(cm.zlit(tok(v)) for v in sr2) + f'], {tmat(Vtr2)}, {tqmat(Ut)}, [' + '; '.join(cm.zlit(tok(v)) for v in st) + f'], {tqmat(Vt)})')
                 ctx.count(('trunc', m, n, cls, R), True)
+    # entries confined to a component subspace (span{1,k}, pure k, span{i,j}, ...): reference values from an independent real embedding
+    from .c02 import rexp_ref
+    for mask in ((1, 0, 0, 1), (0, 0, 0, 1), (1, 1, 0, 0), (1, 0, 1, 0), (0, 1, 1, 0), (0, 0, 1, 1), (1, 0, 0, 0), (0, 1, 0, 0)):
+        for (m, n) in ((3, 3), (4, 2), (2, 4)) if ctx.quick() else ((3, 3), (4, 2), (2, 4), (1, 3), (5, 3)):
+            A = [[Q(*[c * k for c, k in zip(a.t(), mask)]) for a in row] for row in qx.rand_int(rng, m, n, -3, 3)]
+            An = qx.to_np(A); r = min(m, n)
+            sref = np.linalg.svd(np.array([[float(v) for v in row] for row in rexp_ref(A)]), compute_uv=False)[::4][:r]
+            if len(sref) >= 2 and float(np.min(np.abs(np.diff(sref)))) < 1e-6 * max(1.0, float(sref[0])) or (len(sref) and sum(1 for v in sref if v < 1e-9) >= 2) or max(m, n) - sum(1 for v in sref if v > 1e-9) >= 2: continue     # repeated / multiple zero values: known findings
+            inp = {'shape': [m, n], 'components': list(mask), 'A': [[[str(c) for c in a.t()] for a in row] for row in A]}
+            try: U, sg, V = qsvd.classical_qsvd_full(An)
+            except Exception as e: viol('C05:subspace:raises', f'classical_qsvd_full raised {e!r}', inp); continue
+            scv = max(1.0, float(sref[0]) if len(sref) else 1.0)
+            if max(abs(float(a) - float(b)) for a, b in zip(sg, sref)) > 1e-9 * scv: viol('C05:subspace:values', f'singular values wrong for entries in the component subspace {mask}', inp, sg.tolist(), sref.tolist())
+            if fro(utils.quat_matmat(utils.quat_matmat(U, diagq(sg, m, n)), utils.quat_hermitian(V)) - An) > 1e-9 * scv: viol('C05:subspace:reconstruct', f'A != U Sigma V^H for entries in the component subspace {mask}', inp)
+            ctx.count(('subspace', mask, m, n), True)
     res = cm.run_cases(ctx, 'cases_svd', HEADER, terms, 'check_svd', shard=40)
     if res is not None:
         ctx.cov['traces_validated_against_impl'] += len(res)
